@@ -29,7 +29,8 @@ import itertools
 import json
 
 STREAMS = ['names-exhaustive-bytes', 'names-exhaustive-direct', 'names-two-name-handover',
-           'names-random-bytes', 'spec-vs-reference', 'client-flags', 'router-lookup-bytes']
+           'names-random-bytes', 'spec-vs-reference', 'client-flags', 'router-lookup-bytes',
+           'names-waiter-leaves', 'names-two-buses']
 THEOREMS = ['inv_reachable', 'inv_step', 'at_most_one_owner_and_alive', 'step_never_raises',
             'request_semantics', 'reply_states_relation', 'release_semantics', 'disconnect_semantics',
             'signals_track_ownership', 'at_most_one_believer',
@@ -39,7 +40,8 @@ THEOREMS = ['inv_reachable', 'inv_step', 'at_most_one_owner_and_alive', 'step_ne
             'lookups_change_nothing', 'queries_agree_any_name', 'prefix_router_finds_dead_owner',
             'owners_follow_names_step', 'owners_follow_names_history', 'router_models_agree',
             'unicast_reaches_spec_owner', 'wellknown_owner_is_live',
-            'joint_bus_invariant', 'joint_bus_unicast', 'joint_bus_owner_is_live']
+            'linked_history_exists', 'joint_bus_invariant_partial', 'joint_bus_unicast_partial',
+            'joint_bus_self_addressed_partial', 'joint_bus_owner_is_live_partial']
 TRUSTED_BASE = [
     'Python dict (insertion order, in-place overwrite, del), list.remove / insert / append / `in`, '
     'object identity of connections (`is`) - mirrored by hand in Bus/Names.lean, validated by the streams',
@@ -58,6 +60,13 @@ ASSUMPTIONS = [
     'messages / GetNameOwner are non-empty valid bus names other than org.freedesktop.DBus (the empty destination and '
     'the bus\'s own name are decided before the lookup: C14)',
     'of an addressed message only WHO receives it is modelled and judged here (content, sender field, order: C14)',
+    'org.freedesktop.DBus as a REQUESTED name: the built-in bus grants it (dbus-daemon refuses; neither C13\'s nor C14\'s '
+    'statement says it must: observed, not flagged - DESIGN section 13); the name table then treats it like any name '
+    '(modelled, compared, judged: NAMES[4]).  As a DESTINATION that string is the token `b` = HStep.sendBus: answered by '
+    'the bus and forwarded to nobody (C14\'s statement), whoever holds the name; `u<c>,n4` is never generated',
+    'a connection whose first message is not Hello (token a<dest>) is `connect` followed by `send` in the model; that '
+    'the bus asks the transport to close after a first method call that is not Hello is C14\'s (the harness may deliver '
+    'the loss later as d<k>)',
     'what becomes of a replaced owner is left open by the property (txdbus drops it; the DBus '
     'specification requeues it second): both accepted by spec and oracle',
     'not demanded by the oracle (compared with the model only): NameOwnerChanged broadcasts, NameLost deliveries, '
@@ -774,6 +783,10 @@ def judge(world, ref, tok, events, names=(0, 1)):
                 got = [int(x) for x in e[1:].split('.') if x.isdigit()]
         owner = exp['answer']
         want = [] if owner is None else [owner]
+        # a sender that has not said Hello: a bus may refuse to forward for it (dbus-daemon disconnects such a client);
+        # txdbus forwards.  Not delivering is therefore never flagged for `a` tokens - only WHO else gets it is.
+        if kind == 'a' and got == []:
+            want = []
         if got != want:
             obs = {'destination': dest, 'received-by': got, 'connected': sorted(ref.conn)}
             wexp = {'received-by': want}
@@ -829,42 +842,162 @@ def names_of(hist):
 
 
 # ----------------------------------------------------------------------------- running histories
-def run_fresh(mode, hist):
-    """Fresh bus, whole history.  -> (fields, verdict) ; verdict = None | (step index, key, what, obs, exp)"""
-    w = World(mode)
-    ref = Ref()
-    names = names_of(hist)
-    fields = []
-    verdict = None
-    judging = True
-    dead = False
-    for i, tok in enumerate(hist):
-        if dead:
-            fields.append('!')
-            continue
+class Runner:
+    """One history on one fresh bus, step by step (so that two of them can be interleaved in one process).
+
+    fields   per step what is compared with the model (S3); after a step on which the bus raised: '!'
+    heads    per step the first of every queue of `Bus.busNames` (S3: the driver's `e` command)
+    verdict  the first finding of the oracle: (step index, key, what, observed, expected)
+    extras   findings made AFTER an exception (state-leak round, audit M5): the connection on which the bus raised is
+             dropped - Twisted loses a connection whose dataReceived raised - and the history goes on for the others.
+             The reference table cannot follow a half-finished operation, so from then on only what the statement
+             says of EVERY state is judged: owner and waiters are connected clients, nobody waits twice, owner = first
+             of the listing, no addressed message is written to a disconnected client.
+    """
+
+    def __init__(self, mode, hist):
+        self.mode, self.hist = mode, hist
+        self.w = World(mode)
+        self.ref = Ref()
+        self.names = names_of(hist)
+        self.fields, self.heads, self.extras = [], [], []
+        self.verdict = None
+        self.judging = True
+        self.broken = False          # the bus raised on an earlier step
+        self.gone = set()
+        self.i = 0
+
+    def done(self):
+        return self.i >= len(self.hist)
+
+    def _heads(self):
+        try:
+            return {n: (q[0] if q else None) for n, q in self.w.queues().items()}
+        except Exception:
+            return None
+
+    def _invariants(self, i, tok, ev):
+        """Judgement without the reference table (after an exception)."""
+        live = self.ref.conn
+        try:
+            for n in self.names:
+                own, lq = self.w.lookup(n)
+                lq = [] if lq is None else lq
+                if isinstance(own, str) or isinstance(lq, str):
+                    continue
+                if own is not None and own not in live:
+                    return ('dead-queued-client-becomes-owner', 'GetNameOwner names a connection that has disconnected',
+                            {'owner': own, 'queue': lq, 'connected': sorted(live)}, 'the owner is a connected client')
+                if [k for k in lq if k not in live]:
+                    return ('disconnected-client-still-queued', 'ListQueuedOwners lists a connection that has '
+                            'disconnected', {'queue': lq, 'connected': sorted(live)},
+                            'a client that disconnected neither owns nor waits')
+                if len(set(lq)) != len(lq):
+                    return ('queued-twice', 'ListQueuedOwners lists a connection twice', {'queue': lq},
+                            'every connection at most once in a queue')
+                if own != (lq[0] if lq else None):
+                    return ('lookups-disagree', 'GetNameOwner and ListQueuedOwners of one name disagree',
+                            {'owner': own, 'queue': lq}, 'owner = first of the listing')
+        except Exception as e:
+            return ('lookup-raises', 'GetNameOwner / ListQueuedOwners raises %s' % type(e).__name__, repr(e), 'an answer')
+        if tok[0] in 'ua' and not isinstance(ev, str):
+            got = [int(x) for e in ev if e[0] == 'D' for x in e[1:].split('.') if x.isdigit()]
+            dead = [k for k in got if k not in live]
+            if dead:
+                return ('unicast-to-disconnected-client', 'a message addressed to %s is written to the transport of a '
+                        'connection that has disconnected' % dest_str(tok_dest(tok)),
+                        {'received-by': got, 'connected': sorted(live)}, {'received-by': 'connected clients only'})
+        return None
+
+    def _drop(self, tok):
+        """The bus raised while handling `tok`: the connection concerned is gone (for a data event the reactor
+        loses it; a connectionLost that raised is not repeated)."""
+        a = tok_args(tok)
+        c = a[0] if a else self.w.made
+        if tok[0] != 'd' and c in self.w.protos:
+            try:
+                from twisted.python.failure import Failure
+                from twisted.internet.error import ConnectionDone
+                self.w.protos[c].connectionLost(Failure(ConnectionDone()))
+            except Exception:
+                pass
+        self.gone.add(c)
+        self.ref.conn.discard(c)
+        if tok[0] in 'ca':
+            self.ref.next = max(self.ref.next, self.w.made + 1)
+
+    def step(self):
+        i, tok = self.i, self.hist[self.i]
+        self.i += 1
+        w, ref = self.w, self.ref
+        if self.broken:
+            self.fields.append('!')
+            self.heads.append(None)
+            a = tok_args(tok)
+            if a and a[0] in self.gone:
+                return
+            if tok[0] in 'ca':
+                ref.conn.add(w.made + 1)
+            ev = w.step(tok)
+            if tok[0] == 'd':
+                ref.conn.discard(a[0])
+            if isinstance(ev, str):
+                self._drop(tok)
+            v = self._invariants(i, tok, ev)
+            first = self.verdict[1] if self.verdict else None
+            if v is not None and v[0] != first and v[0] not in [x[1] for x in self.extras]:
+                self.extras.append((i,) + v)
+            return
         ev = w.step(tok)
-        fields.append(field(ev, w.state_str()))
-        if verdict is None and judging:
-            v = judge(w, ref, tok, ev, names)
+        self.fields.append(field(ev, w.state_str()))
+        self.heads.append(None if isinstance(ev, str) else self._heads())
+        if self.verdict is None and self.judging:
+            v = judge(w, ref, tok, ev, self.names)
             if v == UNJUDGED:
-                judging = False
+                self.judging = False
             elif v is not None:
-                verdict = (i,) + v
-        elif verdict is not None and verdict[1] == 'disconnected-client-still-queued' and not isinstance(ev, str):
+                self.verdict = (i,) + v
+        elif self.verdict is not None and self.verdict[1] == 'disconnected-client-still-queued' \
+                and not isinstance(ev, str):
             # the same defect, one step further: the dead connection reaches the head of the queue
             try:
-                for n in names:
+                for n in self.names:
                     own, lq = w.lookup(n)
                     if isinstance(own, int) and own not in ref.conn:
-                        verdict = (i, 'dead-queued-client-becomes-owner',
-                                   'GetNameOwner names a connection that has disconnected',
-                                   {'owner': own, 'queue': lq, 'connected': sorted(ref.conn), 'events': ev},
-                                   'the owner is a connected client')
+                        self.verdict = (i, 'dead-queued-client-becomes-owner',
+                                        'GetNameOwner names a connection that has disconnected',
+                                        {'owner': own, 'queue': lq, 'connected': sorted(ref.conn), 'events': ev},
+                                        'the owner is a connected client')
             except Exception:
                 pass
         if isinstance(ev, str):
-            dead = True
-    return fields, verdict
+            self.broken = True
+            self._drop(tok)
+
+
+def run_fresh(mode, hist, full=False):
+    """Fresh bus, whole history.  -> (fields, verdict) ; verdict = None | (step index, key, what, obs, exp);
+    full=True: the Runner itself (heads, extras)."""
+    r = Runner(mode, hist)
+    while not r.done():
+        r.step()
+    return r if full else (r.fields, r.verdict)
+
+
+def run_pair(mode, ha, hb, schedule):
+    """Two buses in ONE process, their histories interleaved step by step (schedule: string of '0' / '1'; when one
+    history is exhausted the other runs on).  Anything the library keeps at class or module level (a name table, the
+    client table, the counter of unique names) shows as cross-talk: each bus is compared with its own run of the model
+    and judged by its own reference table."""
+    ra, rb = Runner(mode, ha), Runner(mode, hb)
+    for ch in schedule:
+        r = ra if ch == '0' else rb
+        if not r.done():
+            r.step()
+    for r in (ra, rb):
+        while not r.done():
+            r.step()
+    return ra, rb
 
 
 def well_formed(hist):
@@ -905,6 +1038,14 @@ def minimise(mode, hist, key):
                 hist = h2
                 changed = True
     return hist
+
+
+def report_extras(ctx, mode, hist, extras):
+    """Findings made after an exception: the whole history up to the step is the input (they depend on what the
+    half-finished operation left behind; no shrinking)."""
+    for i, key, what, obs, exp in extras:
+        ctx.violation(key, what + ' (after the bus raised earlier in this history)',
+                      inp={'path': mode, 'names': NAMES, 'history': list(hist[:i + 1])}, observed=obs, expected=exp)
 
 
 def report(ctx, mode, hist, verdict):
@@ -997,8 +1138,11 @@ def selfcheck_restore(ctx, mode, prefix, nodes):
         h, fld = nodes[i]
         fields, _ = run_fresh(mode, prefix + h)
         if fields[-1] != fld:
-            raise RuntimeError('harness self-check: snapshot/restore differs from a fresh bus on %r: %r vs %r'
-                               % (prefix + h, fld, fields[-1]))
+            # on the unchanged tree this never happens; with state kept outside the restored objects it is the
+            # library that differs between "this bus, earlier" and "a fresh bus": a disagreement, not a crash
+            ctx.disagree('names-exhaustive-' + ('bytes' if mode == 'bytes' else 'direct'),
+                         {'history': prefix + h, 'path': mode}, fld, fields[-1],
+                         detail='the same history on a fresh bus differs from the bus that ran other histories before')
 
 
 def random_history(rng, length):
@@ -1082,6 +1226,99 @@ def two_name_family():
     return out
 
 
+def waiter_family():
+    """Bounded-exhaustive "a waiter leaves" (state-leak round, audit G9; the shape of the seeded C13p / C14o): connection
+    2 WAITS for name X (owner 1) and also holds name Y - owns it, or waits for it behind 3 -, requested before or after X;
+    optionally 4 waits behind 2 on Y (and on X); 2 then disconnects (plainly / holding match rules) or releases both
+    names; afterwards everybody looks: listings, owners, a DO_NOT_QUEUE request for Y by 3, messages to Y, to X and to
+    :1.2, GetNameOwner of :1.2, a new connection that requests Y."""
+    out = []
+    for first in ((0, 1), (1, 0)):
+        for yrole in ('owns', 'waits'):
+            for behind in (0, 1, 2):
+                for leave in ('d', 'xd', 'md', 'r'):
+                    for f in (0, 1):
+                        h = ['c', 'c', 'c', 'c', 'q1,0,0']
+                        if yrole == 'waits':
+                            h.append('q3,1,%d' % f)
+                        req = {0: 'q2,0,%d' % f, 1: 'q2,1,%d' % (1 - f)}
+                        h += [req[first[0]], req[first[1]]]
+                        if behind >= 1:
+                            h.append('q4,1,0')
+                        if behind == 2:
+                            h.append('q4,0,0')
+                        h += {'d': ['d2'], 'xd': ['x2,1', 'x2,0', 'd2'], 'md': ['m2,0', 'm2,4', 'd2'],
+                              'r': ['r2,0', 'r2,1']}[leave]
+                        h += ['l1,0', 'l1,1', 'o3,1', 'o4,0', 'q3,1,4', 'u1,n1,1', 'u3,n0,4', 'u1,k2,1', 'g1,k2',
+                              'c', 'q5,1,0', 'l5,1', 'u5,n1,2']
+                        out.append(h)
+    return out
+
+
+def pair_histories(ctx):
+    """Pairs of histories for two buses in one process: the SAME scripted history on both (every class-level table
+    would have to serve two owners of one name), a history and its mirror (connections numbered alike, different
+    names / flags), and random pairs with lookups."""
+    rng = ctx.rng
+    out = []
+    scripted = [
+        ['c', 'c', 'q1,0,0', 'q2,0,0', 'g2,n0', 'u2,n0,1', 'u1,k2,1', 'd1', 'g2,n0', 'u2,n0,4', 'l2,0'],
+        ['c', 'c', 'c', 'q1,0,1', 'q2,1,0', 'q3,0,2', 'l1,0', 'u2,n0,1', 'r3,0', 'q2,0,0', 'd3', 'u1,k3,1', 'c', 'q4,1,0'],
+        ['c', 'q1,0,0', 'c', 'q2,0,3', 'm1,0', 'u2,n0,1', 'd2', 'c', 'g1,k3', 'u1,k3,2', 'q3,0,4'],
+    ]
+    for h in scripted:
+        out.append(('same', h, list(h)))
+        out.append(('shifted', h, ['c'] + list(h)[:-2]))
+    n = ctx.scale(quick=24, thorough=400)
+    for _ in range(n):
+        hs = []
+        for _k in (0, 1):
+            base = random_history(rng, rng.choice((8, 12, 20)))
+            names = sorted({int(t[1:].split(',')[1]) for t in base if t[0] in 'qrol'}) or [0]
+            hs.append(with_lookups(rng, base, names, density=0.4))
+        out.append(('random', hs[0], hs[1]))
+    res = []
+    for shape, ha, hb in out:
+        sched = ''.join(rng.choice('01') for _ in range(len(ha) + len(hb))) if shape != 'same' \
+            else '01' * max(len(ha), len(hb))
+        res.append((shape, ha, hb, sched))
+    return res
+
+
+def run_pair_stream(ctx):
+    stream = 'names-two-buses'
+    pairs = pair_histories(ctx)
+    lines = []
+    for _, ha, hb, _s in pairs:
+        lines += ['h ' + ' '.join(ha), 'h ' + ' '.join(hb)]
+    out = ctx.model(lines)
+    for i, (shape, ha, hb, sched) in enumerate(pairs):
+        ra, rb = run_pair('bytes', ha, hb, sched)
+        ctx.impl_trace(2)
+        ctx.case(stream, sample=[ha, hb, sched], nontrivial=any(t[0] == 'q' for t in ha + hb))
+        ctx.stat('pair-shape:' + shape)
+        for j, (r, h) in enumerate(((ra, ha), (rb, hb))):
+            inp = {'path': 'bytes', 'names': NAMES, 'pair': [ha, hb], 'schedule': sched, 'judged': j}
+            if r.verdict is not None:
+                _, key, what, obs, exp = r.verdict
+                # does the history fail on a bus that is alone in the process?  then it is an ordinary finding
+                alone = run_fresh('bytes', h, full=True)
+                if alone.verdict is not None and alone.verdict[1] == key:
+                    report(ctx, 'bytes', h, alone.verdict)
+                else:
+                    ctx.violation(key, what + ' (two buses in one process: the same history alone is judged right)',
+                                  inp=inp, observed=obs, expected=exp)
+            for k2, key, what, obs, exp in r.extras:
+                ctx.violation(key, what + ' (after the bus raised; two buses in one process)', inp=inp,
+                              observed=obs, expected=exp)
+            m = out[2 * i + j] if out else None
+            if m is not None and m != ' | '.join(r.fields):
+                mf = m.split(' | ')
+                k = next((x for x, (a, b) in enumerate(zip(mf, r.fields)) if a != b), min(len(mf), len(r.fields)))
+                ctx.disagree(stream, inp, mf[k] if k < len(mf) else None, r.fields[k] if k < len(r.fields) else None,
+                             detail='bus %d of the pair, first differing step %d' % (j, k))
+
+
 def with_lookups(rng, hist, names, density=0.5, every=None):
     """Interleave a name history with addressed messages and GetNameOwner questions.  After a step (with
     probability `density`) one to three lookups by live connections; destinations: the well-known names of the
@@ -1091,7 +1328,7 @@ def with_lookups(rng, hist, names, density=0.5, every=None):
     out, live, nxt = [], [], 1
     for tok in hist:
         out.append(tok)
-        if tok == 'c':
+        if tok[0] in 'ca':
             live.append(nxt)
             nxt += 1
         elif tok[0] == 'd':
@@ -1101,12 +1338,14 @@ def with_lookups(rng, hist, names, density=0.5, every=None):
         if not live:
             continue
         if every is not None:
-            dests = ['n%d' % n for n in names] + ['k%d' % j for j in range(1, nxt + 1)] + ['f%d' % (len(out) % len(FOREIGN))]
+            dests = ['n%d' % n for n in names if n != BUSNAME_IDX] + ['k%d' % j for j in range(1, nxt + 1)] \
+                + ['f%d' % (len(out) % len(FOREIGN))] + (['b'] if BUSNAME_IDX in names else [])
             for i, d in enumerate(dests):
                 c = live[(len(out) + i) % len(live)]
                 out.append('u%d,%s,%d' % (c, d, 1 + (len(out) + i) % 4))
             if every:
-                out.append('g%d,%s' % (live[0], dests[len(out) % len(dests)]))
+                gd = dests[len(out) % len(dests)]
+                out.append('g%d,%s' % (live[0], 'n%d' % BUSNAME_IDX if gd == 'b' else gd))
             continue
         if rng.random() >= density:
             continue
@@ -1115,14 +1354,27 @@ def with_lookups(rng, hist, names, density=0.5, every=None):
             r = rng.random()
             if r < 0.45:
                 d = 'n%d' % rng.choice(names)
+            elif r < 0.50:
+                d = 'b'
             elif r < 0.80:
                 d = 'k%d' % rng.randrange(1, nxt + 1)
             elif r < 0.90:
                 d = 'k%d' % c
             else:
                 d = 'f%d' % rng.randrange(len(FOREIGN))
-            if rng.random() < 0.25:
+            if d == 'n%d' % BUSNAME_IDX:
+                # the bus's own name: GetNameOwner asks the table; a MESSAGE for it is the token `b`
+                out.append('g%d,%s' % (c, d) if rng.random() < 0.5 else 'u%d,b,%d' % (c, rng.randrange(1, 5)))
+                continue
+            r2 = rng.random()
+            if r2 < 0.22 and d != 'b':
                 out.append('g%d,%s' % (c, d))
+            elif r2 < 0.28:
+                out.append('m%d,%d' % (c, rng.randrange(len(EAVES))))        # from now on c holds a matching rule
+            elif r2 < 0.34 and nxt <= 13:
+                out.append('a%s,%d' % (d, rng.randrange(1, 5)))              # a new connection's first message
+                live.append(nxt)
+                nxt += 1
             else:
                 out.append('u%d,%s,%d' % (c, d, rng.randrange(1, 5)))
     return out
@@ -1147,9 +1399,49 @@ def lookup_histories(ctx):
     for h in scripted:
         out.append(('scripted', with_lookups(ctx.rng, h, sorted({int(t.split(',')[1]) for t in h if t[0] in 'qr'}),
                                              every=True)))
+    # (review 3, F2) the bus's own name is requested, granted, handed over, released - and messages for it never arrive
+    busname = [
+        ['c', 'c', 'q1,4,0', 'q2,4,0', 'q2,0,0', 'r1,4', 'd2', 'q1,4,1'],
+        ['c', 'c', 'c', 'q1,4,1', 'q2,4,2', 'q3,4,4', 'q1,0,0', 'd2', 'r1,0'],
+    ]
+    for h in busname:
+        out.append(('bus-name', with_lookups(ctx.rng, h, sorted({int(t.split(',')[1]) for t in h if t[0] in 'qr'}),
+                                             every=True)))
+    # (review 3, 6) every connection holds rules that match the messages sent; senders whose first message is the unicast
+    for h in scripted[:2] + busname[:1]:
+        names = sorted({int(t.split(',')[1]) for t in h if t[0] in 'qr'})
+        hh, conns = [], 0
+        for tok in h:
+            hh.append(tok)
+            if tok == 'c':
+                conns += 1
+                hh += ['m%d,%d' % (conns, j) for j in range(len(EAVES))]
+        out.append(('eavesdroppers', with_lookups(ctx.rng, hh, names, every=True)))
+    for h in scripted + busname[:1]:
+        names = sorted({int(t.split(',')[1]) for t in h if t[0] in 'qr'})
+        hh, nxt = [], 1
+        for tok in h:
+            hh.append(tok)
+            if tok == 'c':
+                nxt += 1
+            if tok[0] in 'qrd' and nxt <= 10:
+                dests = ['n%d' % n for n in names if n != BUSNAME_IDX] + ['k%d' % j for j in range(1, nxt + 1)] + ['b', 'f1']
+                d = dests[len(hh) % len(dests)]
+                hh.append('a%s,%d' % (d, 1 + len(hh) % 4))
+                nxt += 1
+                if len(hh) % 3 == 0:
+                    hh.append('d%d' % (nxt - 1))        # the loss the bus asked for arrives
+        if well_formed(hh):
+            out.append(('first-message', with_lookups(ctx.rng, hh, names, density=0.5)))
     n = ctx.scale(quick=120, thorough=2000)
     for _ in range(n):
         base = random_history(ctx.rng, ctx.rng.choice((8, 15, 25, 40)))
+        if ctx.rng.random() < 0.15:          # one of the names of this history is the bus's own
+            used = sorted({int(t[1:].split(',')[1]) for t in base if t[0] in 'qrol'})
+            if used:
+                old = ctx.rng.choice(used)
+                base = [(lambda p: ','.join([p[0], str(BUSNAME_IDX)] + p[2:]))(t.split(','))
+                        if t[0] in 'qrol' and int(t[1:].split(',')[1]) == old else t for t in base]
         names = sorted({int(t[1:].split(',')[1]) for t in base if t[0] in 'qrol'}) or [0]
         out.append(('random', with_lookups(ctx.rng, base, names, density=ctx.rng.choice((0.3, 0.6, 0.9)))))
     return out
@@ -1160,36 +1452,64 @@ def run_lookup_stream(ctx):
     hists = lookup_histories(ctx)
     out = ctx.model(['h ' + ' '.join(h) for _, h in hists])
     sout = ctx.model(['s ' + ' '.join(h) for _, h in hists])
+    eout = ctx.model(['e ' + ' '.join(h) for _, h in hists])
     for i, (shape, h) in enumerate(hists):
-        fields, verdict = check_history(ctx, stream, 'bytes', h, out[i] if out else None)
+        r = run_fresh('bytes', h, full=True)
+        fields, verdict = check_history(ctx, stream, 'bytes', h, out[i] if out else None, runner=r)
+        # the owner changes C13's model computes for C14's table (`Bus.ownerChanges`) against the changes of the
+        # heads of Bus.busNames on the real bus, step by step
+        if eout is not None:
+            mine, prev = [], {}
+            for hd in r.heads:
+                if hd is None:
+                    mine.append('!')
+                    continue
+                ch = ['%s=%s' % (n, hd[n]) for n in hd if prev.get(n) != hd[n]] + \
+                     ['%s=-' % n for n in prev if n not in hd]
+                mine.append(','.join(sorted(ch, key=lambda x: (len(x.split('=')[0]), x.split('=')[0]))) or '-')
+                prev = hd
+            if eout[i] != ' | '.join(mine):
+                mf = eout[i].split(' | ')
+                k = next((j for j, (x, y) in enumerate(zip(mf, mine)) if x != y), min(len(mf), len(mine)))
+                ctx.disagree(stream, {'history': h, 'what': 'owner changes (driver command e)'},
+                             mf[k] if k < len(mf) else None, mine[k] if k < len(mine) else None,
+                             detail='first differing step %d (%s)' % (k, h[k] if k < len(h) else ''))
         ctx.case(stream, sample=h, nontrivial=any(t[0] == 'q' for t in h))
         ctx.stat('lookup-shape:' + shape)
         live, nxt = set(), 1
+        rules = set()
         for tok, f in zip(h, fields):
-            if tok == 'c':
+            if tok[0] in 'ca':
                 live.add(nxt)
                 nxt += 1
             elif tok[0] == 'd':
                 live.discard(int(tok[1:]))
-            if tok[0] not in 'ug':
+                rules.discard(int(tok[1:]))
+            elif tok[0] == 'm':
+                rules.add(int(tok[1:].split(',')[0]))
+            if tok[0] not in 'uga':
                 continue
-            d = tok[1:].split(',')[1]
-            cls = {'n': 'well-known', 'f': 'foreign'}.get(d[0])
+            d = tok_dest(tok)
+            sender = nxt - 1 if tok[0] == 'a' else int(tok[1:].split(',')[0])
+            if tok[0] in 'ua':
+                ctx.stat('lookup-rule-holders:%d' % min(len(rules & live), 3))
+            cls = {'n': 'well-known', 'f': 'foreign', 'b': 'bus-itself'}.get(d[0])
+            if d == 'n%d' % BUSNAME_IDX:
+                cls = 'bus-name-in-table'
             if cls is None:
                 j = int(d[1:])
-                cls = ('unique-self' if j == int(tok[1:].split(',')[0]) else 'unique-live' if j in live
+                cls = ('unique-self' if j == sender else 'unique-live' if j in live
                        else 'unique-gone' if j < nxt else 'unique-never')
             ev = f.split('#')[0]
             res = 'error' if ev.startswith('ERR') or ev == '!' else \
                   'nobody' if ev in ('D-',) or 'NameHasNoOwner' in ev else 'found'
-            ctx.stat('lookup-%s:%s:%s' % ('send' if tok[0] == 'u' else 'ask', cls, res))
+            ctx.stat('lookup-%s:%s:%s' % ({'u': 'send', 'a': 'first-message', 'g': 'ask'}[tok[0]], cls, res))
             if tok[0] == 'u':
                 ctx.stat('lookup-msgtype:' + (tok.split(',')[2] if tok.count(',') > 1 else '1'))
         # the oracle's reference (owner_of) against the Lean specification (Spec.State.ownerOf)
         ref = Ref()
-        names = sorted(names_of(h)) if any(t[0] in 'qrolug' for t in h) else []
         names = sorted({int(t[1:].split(',')[1]) for t in h if t[0] in 'qrol'} |
-                       {int(t[1:].split(',')[1][1:]) for t in h if t[0] in 'ug' and t[1:].split(',')[1][0] == 'n'})
+                       {int(tok_dest(t)[1:]) for t in h if t[0] in 'uga' and tok_dest(t)[0] == 'n'})
         mine = [ref.spec_field(tok, names) for tok in h]
         ctx.case('spec-vs-reference', sample=h)
         if sout is not None and sout[i] != ' | '.join(mine):
@@ -1199,11 +1519,13 @@ def run_lookup_stream(ctx):
                          mine[k] if k < len(mine) else None, detail='step %d' % k)
 
 
-def check_history(ctx, stream, mode, hist, model_line):
-    fields, verdict = run_fresh(mode, hist)
+def check_history(ctx, stream, mode, hist, model_line, runner=None):
+    r = runner if runner is not None else run_fresh(mode, hist, full=True)
+    fields, verdict = r.fields, r.verdict
     ctx.impl_trace()
     if verdict is not None:
         report(ctx, mode, hist, verdict)
+    report_extras(ctx, mode, hist, r.extras)
     if model_line is not None:
         want = ' | '.join(fields)
         if model_line != want:
@@ -1366,6 +1688,18 @@ def run(ctx):
     # the router's reading of the table: addressed messages and GetNameOwner of any name between name operations
     run_lookup_stream(ctx)
 
+    # a waiter leaves (state-leak round): bounded-exhaustive, byte path
+    wf = waiter_family()
+    if not (thorough or ctx.widen):
+        wf = wf[ctx.rng.randrange(2)::2]
+    wout = ctx.model(['h ' + ' '.join(h) for h in wf])
+    for i, h in enumerate(wf):
+        check_history(ctx, 'names-waiter-leaves', 'bytes', h, wout[i] if wout else None)
+        ctx.case('names-waiter-leaves', sample=h)
+
+    # two buses in one process, interleaved
+    run_pair_stream(ctx)
+
     # client side
     rows = client_rows()
     cout = ctx.model(['f %d %d %d %d %d' % (a, r, d, e, code) for (a, r, d, e, code), _, _ in rows])
@@ -1386,12 +1720,25 @@ def replay(ctx, data):
             if out is not None and out[0] != impl:
                 ctx.disagree('client-flags', list(row), out[0], impl)
         return
+    if 'pair' in inp:
+        ha, hb = inp['pair']
+        ra, rb = run_pair(inp.get('path', 'bytes'), ha, hb, inp.get('schedule', ''))
+        out = ctx.model(['h ' + ' '.join(ha), 'h ' + ' '.join(hb)])
+        for j, r in enumerate((ra, rb)):
+            for v in ([r.verdict] if r.verdict else []) + r.extras:
+                ctx.violation(v[1], v[2], inp=inp, observed=v[3], expected=v[4])
+            if out is not None and out[j] != ' | '.join(r.fields):
+                ctx.disagree('replay', inp, out[j], ' | '.join(r.fields))
+        return
     if 'history' not in inp:
         return run(ctx)
     hist = [t for t in inp['history'] if not t.startswith('(')]
     mode = inp.get('path', 'bytes')
     out = ctx.model(['h ' + ' '.join(hist)])
-    fields, verdict = run_fresh(mode, hist)
+    r = run_fresh(mode, hist, full=True)
+    fields, verdict = r.fields, r.verdict
+    for v in r.extras:
+        ctx.violation(v[1], v[2], inp=inp, observed=v[3], expected=v[4])
     if verdict is not None:
         i, key, what, obs, exp = verdict
         ctx.violation(key, what, inp=inp, observed=obs, expected=exp)
